@@ -23,14 +23,13 @@ META = {
 def obligations(tier, seed):
     t = 400 if tier == 'quick' else 1800
     obs = []
-    if tier == 'quick':
-        sh = [['which == %d' % w, 'n <= 1'] for w in range(4)]
-        sh += [['which == %d' % w, 'pk == %d' % pk, 'n == 2'] for w in range(4) for pk in (0, 1, 10, 14)]
-        sb = '4 transforms x %d parents x statement lists of length <= 1, and length 2 under module/def/except/case' % transkern.N_PARENT
-    else:
-        sh = [['which == %d' % w, 'pk == %d' % pk, 'n <= 3'] for w in range(4) for pk in range(transkern.N_PARENT)]
-        sb = '4 transforms x %d parents x statement lists of length <= 3' % transkern.N_PARENT
-    obs.append(dict(name='C05a.suite_hooks', fn='suite_kernel', timeout=t, shards=sh, bounds=sb))
+    # parent kind and statement kinds come from 12 boolean structure parameters (17 x 10^n index space)
+    ns = (0, 1, 2) if tier == 'quick' else (0, 1, 2, 3)
+    sh = [['which == %d' % w, 'n == %d' % n] + (['b11 == False', 'b10 == False', 'b9 == False', 'b8 == False'] if n < 2 else []) for w in range(4) for n in ns]
+    if tier == 'thorough':
+        sh = [x for x in sh if 'n == 3' not in x] + [['which == %d' % w, 'n == 3', 'b11 == %s' % a] for w in range(4) for a in (True, False)]
+    obs.append(dict(name='C05a.suite_hooks', fn='suite_kernel_b', timeout=t, shards=sh,
+                    bounds='4 transforms x %d parents x every statement list of length <= %d over %d statement kinds' % (transkern.N_PARENT, max(ns), transkern.N_STMT)))
     obs.append(dict(name='C05a.remove_debug', fn='debug_kernel', timeout=t, shards=[['shape == %d' % s, 'else_kind == %d' % e] for s in range(5) for e in range(3)],
                     bounds='see META'))
     obs.append(dict(name='C05a.remove_object', fn='object_kernel', timeout=t, shards=[['shape == %d' % s] for s in range(5)], bounds='see META'))
